@@ -60,7 +60,7 @@ def loadsImpl (t : Text) : Loaded :=
   | .ok (.obj kvs) => .strs (kvs.toList.map fun kv => kv.1.toList)
   | .ok _ => .raises
 
-/-- the field group is fully modelled since /repo <FIXID3> (`pyFieldWord`); `alnum` (the harness's
+/-- the field group is fully modelled since /repo 18c6055 (`pyFieldWord`); `alnum` (the harness's
     `str.isalnum()` answers) is no longer consulted -/
 def codec (_alnum : List Char) : Codec :=
   { dumps := fun ts => (Json.arr (ts.map fun t => Json.str (ofText t)).toArray).compress.toList
